@@ -52,16 +52,16 @@ def _bases(tier: str):
     return out
 
 
-def _helpers():
+def _helpers(tier: str = "thorough"):
     """(label, method, kwargs, kind, argset name or None).  kind: what the property promises for the mode."""
     hs = []
     for rf in (True, False):
         for rep_ in (False, True):
-            for an in ("no-arguments", "one-text", "mixed"):
+            for an in (("no-arguments", "one-text", "mixed") if tier == "thorough" else ("mixed",) if (rf, rep_) != (True, False) else ("no-arguments", "mixed")):
                 hs.append((f"insert_python(run_first={rf}, use_output_as_unpickle_result={rep_}, {an})", "insert_python", dict(module=INJ[0], attr=INJ[1], run_first=rf, use_output_as_unpickle_result=rep_), "replace" if rep_ else "keep", an))
             hs.append((f"insert_python_exec(run_first={rf}, use_output_as_unpickle_result={rep_})", "insert_python_exec", dict(run_first=rf, use_output_as_unpickle_result=rep_), "replace-exec" if rep_ else "keep-exec", "one-text"))
     for pop in (True, False):
-        for an in ("no-arguments", "one-text", "constants"):  # append_python takes constants only
+        for an in (("no-arguments", "one-text", "constants") if tier == "thorough" else ("constants",)):  # append_python takes constants only
             hs.append((f"append_python(pop_result={pop}, {an})", "append_python", dict(module=INJ[0], attr=INJ[1], pop_result=pop), "keep" if pop else "append-keep-value", an))
     for cc in (False, True):
         for ca in (None, [1, "x"]):
@@ -218,7 +218,7 @@ def explore(repo: Repo, tier: str):
 
     global _IREPO
     _IREPO = repo
-    items = [(bl, b, h) for bl, b in _bases(tier) for h in _helpers()]
+    items = [(bl, b, h) for bl, b in _bases(tier) for h in _helpers(tier)]
     jobs = min(int(os.environ.get("SA_JOBS", "16")), os.cpu_count() or 1)
     chunks = [items[i::jobs] for i in range(jobs)]
 
